@@ -865,6 +865,31 @@ func (v *Verifier) bitOr(s *State, a, b *Term, w int, pos token.Pos) *Term {
 
 // shiftedBy reports whether t is syntactically a multiple of 2^k.
 func shiftedBy(t *Term) (int, bool) {
+	if t.Op == "+" && !t.IsLit && len(t.Args) > 0 {
+		best := -1
+		for _, a := range t.Args {
+			var k int
+			if a.isInt() {
+				if a.Int.Sign() == 0 {
+					continue
+				}
+				k = int(new(big.Int).Abs(a.Int).TrailingZeroBits())
+			} else {
+				kk, ok := shiftedBy(a)
+				if !ok {
+					return 0, false
+				}
+				k = kk
+			}
+			if best < 0 || k < best {
+				best = k
+			}
+		}
+		if best > 0 {
+			return best, true
+		}
+		return 0, false
+	}
 	if t.Op == "*" && len(t.Args) == 2 && t.Args[0].isInt() {
 		n := t.Args[0].Int
 		if n.Sign() > 0 && new(big.Int).And(n, new(big.Int).Sub(n, big.NewInt(1))).Sign() == 0 {
@@ -1231,6 +1256,9 @@ func (v *Verifier) evalTo(s *State, e ast.Expr, to types.Type) *Term {
 func (v *Verifier) coerce(s *State, x *Term, from, to types.Type) *Term {
 	if to == nil {
 		return x
+	}
+	if _, isTP := to.(*types.TypeParam); isTP {
+		return x // generic parameter: the value keeps its concrete representation
 	}
 	if _, toI := to.Underlying().(*types.Interface); toI {
 		if _, isTP := to.(*types.TypeParam); !isTP {
